@@ -470,7 +470,7 @@ MANIFEST_ENTRIES = {
             'function of the abstract corpus alone; scores are an uninterpreted function fixed by the first build for which the property promises equality and compared bit for bit with every later '
             'one. Code: 16 build recipes per generated corpus incl. the empty one (batch partitioning, in-memory, ice v1/v2, optimisations off, scoring off, reopen, Backup + OpenReader, OfflineWriter '
             'with > 10 batches, forced merges, pending deletions, partition over k indexes + MultiSearch) answer generated queries; LayoutTrace checks every answer. Score differences of builds with '
-            'merged segments are the listed known finding.', '6 C08',
+            'merged segments are the listed known finding. The offline writer additionally has its own model (Offline.tla: nothing lost at any step, an offline index is absent or complete, exactly the snapshot\'s files remain) and every directory operation of real offline builds, with and without an injected failure, is validated against it (OfflineTrace.tla).', '6 C08',
             'TLA+ specification of layout-independent answers (Layout.tla over Search.tla) evaluated by TLC on the answers of every real build recipe (LayoutTrace)', SEQ_NOTE, 'model_checking'),
     'C16': ('Aggs.tla defines every aggregation as direct evaluation over the matched documents (count, sum, min, max, (sum, n) for averages, (sum v*w, sum w) for weighted averages, '
             'per-value bucket consumption for terms / numeric / date ranges with nested metrics, terms selection = the largest buckets, remainder for single-valued fields, exact distinct count, '
